@@ -54,7 +54,8 @@ class Engine(EngineBase):
         return ("seeded operation lists (<= 40) of item/attribute set, delete, update, setdefault, pop, clear, "
                 "reset, nested dict and list mutation, invalid keys/values, reads, restart, remove+re-init, "
                 "re-key of the owning job, buffered enter/exit (nesting <= 3) and buffer capacity in "
-                "{0, 64, 1024, default}; on 1-3 job documents + the project document through 1-3 handles each; "
+                "{0, 64, 1024, default}, blocks left normally or by an exception; on 1-3 job documents + the project "
+                "document through 1-3 handles each (opened independently or copy / deepcopy / pickle of the first); "
                 "executed unbuffered, as generated and fully buffered. distinct = operation 3-grams and "
                 "(final model, buffer events) digests; non-trivial = at least one write inside a buffered block "
                 "or one stale-handle path taken")
